@@ -72,7 +72,7 @@ def generate(seed, tier):
             row[index] = rng.choice([" " + row[index], row[index] + " ", "  " + row[index]]) if row[index] else row[index]
         table.append(row)
     return {"cid": spec, "table": table, "ios": [simfs.IoConfig.draw(swarm) for _ in range(3)],
-            "ods_features": sorted(swarm.sample(["colruns", "rowruns", "stored", "colstyle", "spans", "annotations", "embedded-object"],
+            "ods_features": sorted(swarm.sample(["colruns", "rowruns", "stored", "colstyle", "spans", "annotations", "embedded-object", "links"],
                                                 swarm.randint(0, 2))),
             "other_table_at_same_path_first": swarm.random() < 0.3,
             # file names are whatever the user's tools made of them: cid.ODS, cid.Xlsx
